@@ -30,10 +30,15 @@ package heuristic
 // blocksOK: every text block of the document is a non-nil object (established by CreateTextDocument).
 
 //@ func (*SimilarSiblingContent).findCanonicalReps(textBlocks)
-//@   trusted
-//@   requires f != nil && forall(i, 0 <= i && i < len(textBlocks), textBlocks[i] != nil)
-//@   fresh_assigns elems(ref)
+//@   requires f != nil && blocksDeep(textBlocks) && blocksOneTree(textBlocks) && len(textBlocks) >= 2
+//@   fresh_assigns elems(ref), webdoc.Text.*, webdoc.BaseElement.*, webdoc.TextBlock.*
 //@   ensures freshslice(result) && len(result) == len(textBlocks) && forall(i, 0 <= i && i < len(result), result[i] != nil)
+//@   loop 0 invariant 0 <= i && i <= len(textBlocks) && freshslice(reps) && len(reps) == i && forall(k, 0 <= k && k < len(reps), reps[k] != nil) && f != nil
+//@   loop 0 decreases len(textBlocks) - i
+//@   loop 1 invariant currentNode != nil && currentParent == currentNode.Parent && currentParent != nil && curRoot(currentNode) == curRoot(firstWord(textBlocks[0]))
+//@   loop 1 invariant implies(i > 0, prevNode != nil && curRoot(prevNode) == curRoot(firstWord(textBlocks[0])))
+//@   loop 1 invariant implies(i + 1 < len(textBlocks), nextNode != nil && curRoot(nextNode) == curRoot(firstWord(textBlocks[0])))
+//@   loop 1 invariant 0 <= i && i < len(textBlocks) && freshslice(reps) && len(reps) == i && forall(k, 0 <= k && k < len(reps), reps[k] != nil) && f != nil
 
 //@ func (*SimilarSiblingContent).isSimilarIndex(canonicalReps, i, j)
 //@   requires f != nil && 0 <= i && i < len(canonicalReps) && 0 <= j && j < len(canonicalReps) && canonicalReps[i] != nil && canonicalReps[j] != nil
@@ -48,20 +53,23 @@ package heuristic
 //@   assigns nothing
 
 //@ func (*SimilarSiblingContent).Process(doc)
-//@   requires f != nil && doc != nil && inheap(doc.TextBlocks) && forall(i, 0 <= i && i < len(doc.TextBlocks), doc.TextBlocks[i] != nil)
+//@   requires f != nil && doc != nil && blocksDeep(doc.TextBlocks) && blocksOneTree(doc.TextBlocks)
 //@   loop 0 invariant 0 <= i && i <= len(textBlocks) && len(bad) == len(textBlocks) && len(good) == len(textBlocks) && len(canonicalReps) == len(textBlocks)
 //@   loop 0 invariant 0 <= badBegin && badBegin <= badEnd && 0 <= goodBegin && goodBegin <= goodEnd && goodEnd + badEnd <= i
-//@   loop 0 invariant forall(k, 0 <= k && k < badEnd, 0 <= bad[k] && bad[k] < i) && forall(k, 0 <= k && k < goodEnd, 0 <= good[k] && good[k] < i)
+//@   loop 0 invariant forall(k, 0 <= k && k < badEnd, 0 <= bad[k] && bad[k] < i)
+//@   loop 0 invariant forall(k, 0 <= k && k < goodEnd, 0 <= good[k] && good[k] < i)
 //@   loop 0 invariant forall(k, 0 <= k && k < len(textBlocks), textBlocks[k] != nil) && forall(k, 0 <= k && k < len(canonicalReps), canonicalReps[k] != nil)
 //@   loop 0 invariant freshslice(bad) && freshslice(good) && disjoint(bad, good) && disjoint(bad, canonicalReps) && disjoint(good, canonicalReps) && textBlocks == old(doc.TextBlocks)
 //@   loop 1 invariant len(bad) == len(textBlocks) && len(good) == len(textBlocks) && len(canonicalReps) == len(textBlocks) && 0 <= i && i < len(textBlocks)
 //@   loop 1 invariant 0 <= badBegin && badBegin <= j && j <= badEnd && 0 <= goodBegin && goodBegin <= goodEnd && goodEnd + badEnd <= i + 1
-//@   loop 1 invariant forall(k, 0 <= k && k < badEnd, 0 <= bad[k] && bad[k] < i) && forall(k, 0 <= k && k < goodEnd, 0 <= good[k] && good[k] <= i)
+//@   loop 1 invariant forall(k, 0 <= k && k < badEnd, 0 <= bad[k] && bad[k] < i)
+//@   loop 1 invariant forall(k, 0 <= k && k < goodEnd, 0 <= good[k] && good[k] <= i)
 //@   loop 1 invariant forall(k, 0 <= k && k < len(textBlocks), textBlocks[k] != nil) && forall(k, 0 <= k && k < len(canonicalReps), canonicalReps[k] != nil)
 //@   loop 1 invariant freshslice(bad) && freshslice(good) && disjoint(bad, good) && disjoint(bad, canonicalReps) && disjoint(good, canonicalReps) && textBlocks == old(doc.TextBlocks)
 //@   loop 2 invariant len(bad) == len(textBlocks) && len(good) == len(textBlocks) && len(canonicalReps) == len(textBlocks) && 0 <= i && i < len(textBlocks)
 //@   loop 2 invariant 0 <= badBegin && badBegin <= badEnd && 0 <= goodBegin && goodBegin <= j && j <= goodEnd && goodEnd + badEnd <= i
-//@   loop 2 invariant forall(k, 0 <= k && k < badEnd, 0 <= bad[k] && bad[k] < i) && forall(k, 0 <= k && k < goodEnd, 0 <= good[k] && good[k] < i)
+//@   loop 2 invariant forall(k, 0 <= k && k < badEnd, 0 <= bad[k] && bad[k] < i)
+//@   loop 2 invariant forall(k, 0 <= k && k < goodEnd, 0 <= good[k] && good[k] < i)
 //@   loop 2 invariant forall(k, 0 <= k && k < len(textBlocks), textBlocks[k] != nil) && forall(k, 0 <= k && k < len(canonicalReps), canonicalReps[k] != nil)
 //@   loop 2 invariant freshslice(bad) && freshslice(good) && disjoint(bad, good) && disjoint(bad, canonicalReps) && disjoint(good, canonicalReps) && textBlocks == old(doc.TextBlocks)
 
@@ -107,7 +115,7 @@ package heuristic
 //@   loop 0 invariant blocksOK(doc) && doc.TextBlocks == old(doc.TextBlocks)
 
 //@ func (*KeepLargestBlock).Process(doc)
-//@   requires f != nil && blocksOK(doc)
+//@   requires f != nil && blocksOK(doc) && blocksDeep(doc.TextBlocks)
 //@   loop 0 invariant blocksOKs(textBlocks) && textBlocks == old(doc.TextBlocks) && -1 <= largestBlockIndex && largestBlockIndex < len(textBlocks) && implies(largestBlockIndex != -1, largestBlock != nil && largestBlock == textBlocks[largestBlockIndex])
 //@   loop 1 invariant blocksOKs(textBlocks) && textBlocks == old(doc.TextBlocks) && -1 <= largestBlockIndex && largestBlockIndex < len(textBlocks) && implies(largestBlockIndex != -1, largestBlock != nil && largestBlock == textBlocks[largestBlockIndex])
 
@@ -115,3 +123,23 @@ package heuristic
 //@   requires f != nil && blocksOK(doc)
 //@   ensures blocksOK(doc)
 //@   loop 0 invariant blocksOK(doc) && doc.TextBlocks == old(doc.TextBlocks) && f != nil
+
+// ---- KeepLargestBlock sibling expansion (C01): needs the deeper block invariant blocksDeep ----
+
+//@ func (*KeepLargestBlock).isSibling(e1, e2)
+//@   requires f != nil && e1 != nil && e2 != nil
+//@   assigns nothing
+
+//@ func (*KeepLargestBlock).maybeExpandContentToEarlierTextBlocks(textBlocks, largestBlock, largestBlockIndex)
+//@   requires f != nil && blocksDeep(textBlocks) && 0 <= largestBlockIndex && largestBlockIndex < len(textBlocks) && largestBlock == textBlocks[largestBlockIndex]
+//@   loop 0 invariant -1 <= i && i < len(textBlocks) && f != nil && firstTextElement != nil
+//@   loop 0 invariant blocksOKs(textBlocks)
+//@   loop 0 invariant forall(k, 0 <= k && k < len(textBlocks), blockDeep(textBlocks[k]))
+//@   loop 0 decreases i + 1
+
+//@ func (*KeepLargestBlock).maybeExpandContentToLaterTextBlocks(textBlocks, largestBlock, largestBlockIndex)
+//@   requires f != nil && blocksDeep(textBlocks) && 0 <= largestBlockIndex && largestBlockIndex < len(textBlocks) && largestBlock == textBlocks[largestBlockIndex]
+//@   loop 0 invariant 0 <= i && i <= len(textBlocks) && f != nil && lastTextElement != nil
+//@   loop 0 invariant blocksOKs(textBlocks)
+//@   loop 0 invariant forall(k, 0 <= k && k < len(textBlocks), blockDeep(textBlocks[k]))
+//@   loop 0 decreases len(textBlocks) - i
